@@ -235,13 +235,14 @@ P['C03'] = dict(
 
 P['C08'] = dict(
   design_ref='DESIGN.md section 3 C08',
-  level_text='Schedules are not enumerated; non-interference is decided instead, on the real code executed by the engine: (1) for every explored path of Circuit::placeGlobal the read and write footprints of the two std::async solves of each lower-bound step (bracketed by the std::async model, which decay-copies its arguments as the standard prescribes) are disjoint except for read-read sharing, so every interleaving and both completion orders equal the sequential execution and there is no data race in the repository code; (2) no writable global is defined by the library translation units and no store to a global happens on any explored path of placeGlobal / legalize / placeDetailed (no hidden state between runs); (3) no branch, assertion or observed value depends on uninitialised memory or on the clock; the random generator is a function of (seed, draw index).',
-  text=dict(bounds=dict(quick='placeGlobal: tiny circuit, 1 step (2 async pairs per path); legalize/placeDetailed: the C10 harness', thorough='2 steps'),
-            outside='the thread library and Eigen internals (environment); bitwise identity across machines; float results (all floats are unconstrained in these runs)'),
+  level_text='Schedules are not enumerated; non-interference is decided instead, on the real code executed by the engine: (1) for every explored path of Circuit::placeGlobal the read and write footprints of the two std::async solves of each lower-bound step (bracketed by the std::async model, which decay-copies its arguments as the standard prescribes) are disjoint except for read-read sharing, so every interleaving and both completion orders equal the sequential execution and there is no data race in the repository code; (2) no writable global is defined by the library translation units and no store to a global happens on any explored path of placeGlobal / legalize / placeDetailed (no hidden state between runs); (3) no branch, assertion, observed value or input handed to the linear solver depends on uninitialised memory or on the clock; the random generator is a function of (seed, draw index); (4) relational: the same circuit placed twice by placeGlobal - once observed by a read-only callback, once without - ends on the same coordinates on every explored path, with floats, float operations and the linear solver treated as uninterpreted FUNCTIONS of their operands (whatever the float semantics, a deterministic computation gives both runs the same result).',
+  text=dict(bounds=dict(quick='placeGlobal: tiny circuit, 1 step with or without an initial step (2 async pairs per path); relational: two runs of 1 step, export blending 0.5; legalize/placeDetailed: the C10 harness', thorough='2 steps'),
+            outside='the thread library and Eigen internals (environment: the solver is a function of its inputs); bitwise identity across machines; the float values themselves'),
   assumptions=STD_ASSUME + [EIGEN_ASSUME, 'std::async(launch::async, f, args...) decay-copies its arguments before the task runs and get() joins'],
   harnesses=[
     dict(name='H08G', src='C03_global.cpp', covers=['placeGlobal ended', 'end'], defines={'VCAP': 24, 'MAXSTEPS': 1, 'INITCH': 2}, cfg=dict(fp='havoc', time_budget=40, scan_globals=True), split=4, ir_srcs=ALL_IR, native_srcs=ALL_IR, native_flags=['-llemon'],
          thorough=dict(defines={'MAXSTEPS': 2}, cfg=dict(time_budget=600))),
+    dict(name='H08R', src='C08_relate.cpp', covers=['both runs ended', 'end'], defines={'VCAP': 24}, cfg=dict(fp='uf', merge=False, time_budget=60), split=3, diff_samples=0, ir_srcs=ALL_IR, native_srcs=ALL_IR, native_flags=['-llemon']),
     dict(name='H08D', src='C10_busy.cpp', covers=['placement call ended', 'end'], defines={'VCAP': 8}, cfg=dict(fp='havoc', scan_globals=True), ir_srcs=ALL_IR, native_srcs=ALL_IR, native_flags=['-llemon']),
   ])
 
